@@ -68,7 +68,10 @@ SMALL_LEAVES = [("s", "a.b"), ("c", "int"), ("f", "t_num"), ("f", "r_len")]
 TINY_LEAVES = [("c", "int"), ("f", "r_len")]
 
 SEL_CONTEXTS = [None, {}, {"a": 1}, {"a": "b"}, {"a": {}}, {"a": {"b": 1}}, {"a": {"b": "c"}},
-                {"a": {"b": {"c": 1}}}]
+                {"a": {"b": {"c": 1}}},
+                # leaves that only *contain* the last component of a selector (as a part of a string,
+                # as an item of a list): not equal to it, hence not selected
+                {"a": "xb"}, {"a": {"b": ["c"]}}, {"a": {"b": "cx"}}]
 SEL_DATA = [0, 1, "s", []]
 SC_EXTRA_CONTEXTS = [{"a": 0}, {"a": {"b": 0}}, {"a": {"b": None}}, {"b": {"a": 1}},
                      {"a": {"b": {"c": 0}}}, {"a": {"b": {"c": {}}}}, {"a": [1]}]
